@@ -62,6 +62,7 @@ func judge(t *rapid.T, p ls.Program, what string) {
 	if p.LateGates {
 		ev.Label("gates_opened_after_Wait_was_called")
 	}
+	ev.Label([]string{"ctx:plain", "ctx:with_cause", "ctx:value_carrying_grandchild_of_cancelled_parent"}[p.CtxFlavor])
 	ev.Case(nt, ev.Hash(p.String()), func() string {
 		return fmt.Sprintf("%s %s => accepted=%d started=%d ctxRejected=%d", what, p, res.Accepted, res.Started, res.PushRejectedByCtx)
 	})
@@ -90,7 +91,9 @@ func TestEnumeratedCancelPoints(t *testing.T) {
 					ops = append(ops, o)
 				}
 				ev.Label("template:" + tpl.Point)
-				judge(t, tpl.Program(lanes, queue, ops), tpl.String())
+				prog := tpl.Program(lanes, queue, ops)
+				prog.CtxFlavor = load.CtxFlavor
+				judge(t, prog, tpl.String())
 			})
 		})
 	}
@@ -104,7 +107,9 @@ func TestEveryTemplateOnce(t *testing.T) {
 	rt.Check(t, 1, 1, func(t *rapid.T) {
 		for ; idx < len(templates); idx++ {
 			for _, sz := range [][2]int{{1, 0}, {2, 1}, {3, 2}} {
-				judge(t, templates[idx].Program(sz[0], sz[1], nil), templates[idx].String())
+				prog := templates[idx].Program(sz[0], sz[1], nil)
+				prog.CtxFlavor = (idx + sz[0]) % ls.NumCtxFlavors
+				judge(t, prog, templates[idx].String())
 			}
 		}
 	})
